@@ -1,4 +1,5 @@
 """C17 — task scopes join every task, report a first failure and cancel the rest (structural mechanisms)."""
+from . import common
 from engine import query as Q
 from engine.terms import show, subterms
 from engine.guards import Atom, Walker, field_path, chain, Inliner
@@ -165,7 +166,7 @@ def rule_set_err(ctx):
         return t[0] == "field" and t[2] == "0" and t[1][0] == "downcast" and t[1][2] == "Some" and is_cur(t[1][1])
 
     def is_new(t):
-        return t[0] == "param" and t[2] == "err"
+        return common.is_p(t, common.pnames(f, "OrPanic"))
     atoms = [Atom("recorded", "opt", is_cur, ["None", "Some"]), Atom("recorded kind", "enum", is_cur_kind, ["Err", "Panic"]), Atom("new", "enum", is_new, ["Err", "Panic"])]
     W = Walker(ctx, f, atoms)
     store = []
